@@ -1,5 +1,5 @@
 import BreezyVerif.Model.C23
-import BreezyVerif.Lemmas.C23B
+import BreezyVerif.Lemmas.C23C
 /-!
 C23 — checkouts and their master branches stay in step.
 
@@ -347,6 +347,44 @@ theorem run_tree_basis_invariant (ops : List Op) (s : St)
   induction ops generalizing s with
   | nil => exact h
   | cons op rest ih => exact ih (step s op).1 (step_treeInv s op h)
+
+/-- **tree parents are duplicate-free**, one operation: whatever the operation
+(any checkout, any outcome), if no working tree lists a revision twice among
+its parents before, none does afterwards — `set_parent_trees` keeps the basis
+and drops a pending merge that was listed already or is an ancestor of another
+parent -/
+theorem step_tree_parents_nodup (s : St) (op : Op) (h : AllTreesOK s) :
+    AllTreesOK (step s op).1 ∧
+    (step s op).1.tM.parents.Nodup ∧ (step s op).1.tH.parents.Nodup ∧ (step s op).1.tL.parents.Nodup ∧
+    (step s op).1.tO.parents.Nodup ∧ (step s op).1.tH2.parents.Nodup := by
+  have h' := step_treesOK s op h
+  obtain ⟨a, b, c, d, e⟩ := h'
+  exact ⟨⟨a, b, c, d, e⟩, treeOK_parents _ a, treeOK_parents _ b, treeOK_parents _ c, treeOK_parents _ d,
+    treeOK_parents _ e⟩
+
+/-- … and after every step of every operation sequence from `init`: the parent
+list (`get_parent_ids`) of each of the five working trees never repeats a
+revision -/
+theorem run_tree_parents_nodup (ops : List Op) :
+    (run init ops).tM.parents.Nodup ∧ (run init ops).tH.parents.Nodup ∧ (run init ops).tL.parents.Nodup ∧
+    (run init ops).tO.parents.Nodup ∧ (run init ops).tH2.parents.Nodup := by
+  have key : ∀ (ops : List Op) (s : St), AllTreesOK s → AllTreesOK (run s ops) := by
+    intro ops
+    induction ops with
+    | nil => intro s h; exact h
+    | cons op rest ih => intro s h; exact ih (step s op).1 (step_treesOK s op h)
+  have h0 : AllTreesOK init := by
+    refine ⟨?_, ?_, ?_, ?_, ?_⟩ <;> exact ⟨by simp [init], by simp [init]⟩
+  obtain ⟨a, b, c, d, e⟩ := key ops init h0
+  exact ⟨treeOK_parents _ a, treeOK_parents _ b, treeOK_parents _ c, treeOK_parents _ d, treeOK_parents _ e⟩
+
+/-- the corpus case: the local tip is overwritten from the other branch, pivoted
+out by `update`, and overwritten again — the basis is not listed again as a
+pending merge -/
+example :
+    let s := run init [.push .H, .commit .H "r1" false, .pull, .commitO "r2", .pullOther .H none true true, .bind,
+                       .update .M, .update .H, .pullOther .H none true true]
+    s.tH.parents = ["r2"] ∧ s.loc = "r2" ∧ s.master = "r1" := by decide
 
 /-! ### revnos -/
 
